@@ -243,11 +243,15 @@ def differential(ctx: Ctx, eng: Engine, cases: List[Case], on_result: Callable[[
             shutil.rmtree(case._pkg, ignore_errors=True)  # type: ignore
             return res
         res["refs"] = refs
-        br = eng.build_and_run(case)
-        res["build"] = br["build"]
-        if br["build"]["ok"]:
-            res["run"] = br["runs"][0]
-            res["verdict"] = eng.judge(case, br["runs"][0], refs)
+        try:
+            br = eng.build_and_run(case)
+            res["build"] = br["build"]
+            if br["build"]["ok"]:
+                res["run"] = br["runs"][0]
+                res["verdict"] = eng.judge(case, br["runs"][0], refs)
+        except Exception as e:  # never let one case take the whole check down
+            import traceback
+            res["harness"] = f"build/run/judge failed: {type(e).__name__}: {e} :: {traceback.format_exc()[-300:]}"
         return res
 
     # models must exist before threads race to create them
